@@ -104,7 +104,8 @@ impl VehicleTypes {
     }
     /// formation count the overflow depot reckons with for type k
     pub open spec fn fc_or_1(&self, k: VehicleTypeIdx) -> int {
-        match self.vehicle_types@[k].maximal_formation_count { Some(l) => l as int, None => 1 }
+        // types without limit count with the flow network's own cap (slice mcf_bounds: UNLIMITED_FORMATION = 100)
+        match self.vehicle_types@[k].maximal_formation_count { Some(l) => l as int, None => 100 }
     }
 }
 
@@ -155,11 +156,9 @@ impl VehicleTypes {
 //@ret (r: VehicleCount)
 //@sig
     requires
-        // ASSUMED (not established by Network::new): the count fits VehicleCount and the product does not
-        // overflow u32 (debug builds panic, release builds wrap)
+        // ASSUMED (not established by Network::new): the count fits VehicleCount (at most 2^16 trips: Idx = u16)
         number_of_service_nodes <= u32::MAX,
-        number_of_service_nodes * max_formation_count <= u32::MAX,
-    ensures r == number_of_service_nodes * max_formation_count,
+    ensures r as int == (if number_of_service_nodes * max_formation_count <= u32::MAX { number_of_service_nodes * max_formation_count } else { u32::MAX as int }),
 //@end
 
 //@frag model/src/network.rs Network::new : closure map#2 as frag_overflow_allowed_type
@@ -182,6 +181,8 @@ pub open spec fn need_within_limits(trips: Map<VehicleTypeIdx, Vec<ServiceTrip>>
         &&& vts.vehicle_types@.contains_key(k)
         &&& 0 <= #[trigger] need(k, i)
         &&& (vts.vehicle_types@[k].maximal_formation_count is Some ==> need(k, i) <= vts.vehicle_types@[k].maximal_formation_count.unwrap())
+        // without a limit the flow stage asks for at most 100 coupled vehicles per trip (slice mcf_bounds)
+        &&& (vts.vehicle_types@[k].maximal_formation_count is None ==> need(k, i) <= 100)
     }
 }
 /// what the three fragments of Network::new guarantee (their `ensures`, connected by the pinned plumbing)
@@ -189,16 +190,16 @@ pub open spec fn overflow_fragments(trips: Map<VehicleTypeIdx, Vec<ServiceTrip>>
     &&& n as int == total_len(trips)          // frag_service_trip_counts + `.sum::<usize>()`
     &&& (forall|k: VehicleTypeIdx| vts.vehicle_types@.contains_key(k) ==> #[trigger] vts.fc_or_1(k) <= m)  // frag_max_formation_count
     &&& m >= 1
-    &&& cap as int == n * m                                            // frag_overflow_capacity (under its ASSUMED precondition)
+    &&& cap as int == (if n * m <= u32::MAX { n * m } else { u32::MAX as int })   // frag_overflow_capacity (saturating product)
 }
-/// helper: the claim holds when every type that has trips carries a formation limit
-pub proof fn lemma_overflow_capacity_limited_types(trips: Map<VehicleTypeIdx, Vec<ServiceTrip>>, vts: VehicleTypes,
+/// C17 / C06: the overflow depot can host every vehicle the instance may need (up to the largest
+/// representable vehicle count)
+pub proof fn lemma_overflow_depot_can_host_every_vehicle(trips: Map<VehicleTypeIdx, Vec<ServiceTrip>>, vts: VehicleTypes,
         need: spec_fn(VehicleTypeIdx, int) -> int, n: usize, m: VehicleCount, cap: VehicleCount)
     requires
         overflow_fragments(trips, vts, n, m, cap),
         need_within_limits(trips, vts, need),
-        forall|k: VehicleTypeIdx| trips.dom().contains(k) && trips[k]@.len() > 0 && vts.vehicle_types@.contains_key(k) ==> (#[trigger] vts.vehicle_types@[k]).maximal_formation_count is Some,
-    ensures cap >= need_total(trips, need),
+    ensures cap >= need_total(trips, need) || cap == u32::MAX, // @obl C17.overflow_depot.can_host_every_vehicle
 {
     let g = need_of(trips, need);
     let f = len_of(trips);
@@ -207,7 +208,6 @@ pub proof fn lemma_overflow_capacity_limited_types(trips: Map<VehicleTypeIdx, Ve
         if trips[k]@.len() > 0 {
             assert(need(k, 0) >= 0);
             assert(vts.vehicle_types@.contains_key(k));
-            assert(vts.vehicle_types@[k].maximal_formation_count is Some);
             assert(vts.fc_or_1(k) <= m);
             assert forall|i: int| 0 <= i < s.len() implies 0 <= #[trigger] s[i] <= m as int by {
                 assert(need(k, i) >= 0);
@@ -220,46 +220,6 @@ pub proof fn lemma_overflow_capacity_limited_types(trips: Map<VehicleTypeIdx, Ve
     }
     lemma_set_sum_le_scaled(trips.dom(), g, f, m as int);
     assert((m as int) * (n as int) == (n as int) * (m as int)) by (nonlinear_arith);
-}
-/// C17 / C06: the overflow depot can host every vehicle the instance may need
-pub proof fn lemma_overflow_depot_can_host_every_vehicle(trips: Map<VehicleTypeIdx, Vec<ServiceTrip>>, vts: VehicleTypes,
-        need: spec_fn(VehicleTypeIdx, int) -> int, n: usize, m: VehicleCount, cap: VehicleCount)
-    requires
-        overflow_fragments(trips, vts, n, m, cap),
-        need_within_limits(trips, vts, need),
-    ensures cap >= need_total(trips, need), // @obl C17.overflow_depot.can_host_every_vehicle
-{
-    if forall|k: VehicleTypeIdx| trips.dom().contains(k) && trips[k]@.len() > 0 && vts.vehicle_types@.contains_key(k) ==> (#[trigger] vts.vehicle_types@[k]).maximal_formation_count is Some {
-        lemma_overflow_capacity_limited_types(trips, vts, need, n, m, cap);
-    } else {
-        // a type WITHOUT formation limit has trips: it was counted with 1 vehicle per trip (`unwrap_or(1)`),
-        // but need(k, i) is not bounded at all — nothing to conclude (D5)
-    }
-}
-
-/// the failure above is not a proof gap: one type without formation limit, one trip that needs 10
-/// vehicles — all fragment contracts and the hypothesis of the property hold, the capacity is 1 (D5)
-pub proof fn lemma_d5_counterexample(trips: Map<VehicleTypeIdx, Vec<ServiceTrip>>, vts: VehicleTypes, k: VehicleTypeIdx, v: Vec<ServiceTrip>)
-    requires
-        trips == Map::<VehicleTypeIdx, Vec<ServiceTrip>>::empty().insert(k, v), v@.len() == 1,
-        vts.vehicle_types@.dom() == set![k], vts.vehicle_types@[k].maximal_formation_count is None,
-    ensures ({
-        let need = |k: VehicleTypeIdx, i: int| 10int;
-        &&& overflow_fragments(trips, vts, 1, 1, 1)
-        &&& need_within_limits(trips, vts, need)
-        &&& need_total(trips, need) == 10
-    }),
-{
-    let need = |k: VehicleTypeIdx, i: int| 10int;
-    assert(trips.dom() =~= set![k]);
-    assert(trips.dom().remove(k) =~= Set::<VehicleTypeIdx>::empty());
-    lemma_set_sum_remove(trips.dom(), len_of(trips), k);
-    lemma_set_sum_remove(trips.dom(), need_of(trips, need), k);
-    assert(Seq::new(trips[k]@.len(), |i: int| need(k, i)) =~= seq![10int]);
-    lemma_isum_one(10);
-    assert forall|k2: VehicleTypeIdx| vts.vehicle_types@.contains_key(k2) implies #[trigger] vts.fc_or_1(k2) <= 1 by {
-        assert(vts.vehicle_types@.dom().contains(k2));
-    }
 }
 /// the overflow depot's capacity for every listed type without per-type limit is its total capacity
 pub proof fn lemma_no_type_limit_means_total(d: Depot, vt: VehicleTypeIdx)
